@@ -30,6 +30,8 @@ Case1(c, v)         == [k |-> "case", cs |-> <<[c |-> c, v |-> v]>>, d |-> <<>>]
 Case1D(c, v, d)     == [k |-> "case", cs |-> <<[c |-> c, v |-> v]>>, d |-> <<d>>]
 Case2D(c1, v1, c2, v2, d) == [k |-> "case", cs |-> <<[c |-> c1, v |-> v1], [c |-> c2, v |-> v2]>>, d |-> <<d>>]
 Cast(x, to)     == [k |-> "cast", e |-> x, to |-> to]
+(* the same cast written with the generic target type (pdt.Float() instead of pdt.Float64) *)
+CastG(e, to)    == [k |-> "cast", e |-> e, to |-> to, g |-> TRUE]
 Mark(o, x)      == [k |-> "mark", op |-> o, a |-> <<x>>]
 KV(n, e)        == [n |-> n, e |-> e]
 
